@@ -83,6 +83,9 @@ def augment_case(ctx, case):
         if bool(((tour(xa) - c0).abs() > 1e-5 * c0.clamp(min=1)).any()):
             ctx.violation(dict(sig, q="tour_cost_changed"), f"a fixed tour costs something else on augmented copy {a}", None)
             return
+        if a == 0 and not fai and fam == "symmetric" and B * n >= 4 and torch.equal(xa, xy):
+            ctx.violation(dict(sig, q="first_copy_identity_although_disabled"), "first_aug_identity=False but the first copy is the original instance", None)
+            return
         if a == 0 and fai and not torch.equal(xa, xy):
             if bool(((xa - xy).abs() > 1e-6).any()):
                 ctx.violation(dict(sig, q="first_copy_not_identity"), f"the first augmented copy is not the original instance (max coordinate difference {float((xa - xy).abs().max()):.3g})", None)
